@@ -200,6 +200,10 @@ def Iter.nextIteration (it : Iter) : Iter :=
   let c := (it.cur + 1) % it.n
   { it with cur := c, tops := it.tops.set c (it.blockStart c) }
 
+/-- `composable_allocator_traits<iteration_allocator>::try_deallocate_node/array`: `block_.contains(ptr)` — memory of
+*every* iteration, not only the current one -/
+def Iter.contains (it : Iter) (p : Nat) : Bool := decide (it.block.base ≤ p ∧ p < it.block.base + it.block.size)
+
 def Iter.capacityLeft (it : Iter) (i : Nat) : Nat := sub64 (it.blockEnd i) (it.tops.getD i 0)
 
 /-- destructor: returns the block unless moved-from (`cur_ == N`) -/
